@@ -113,7 +113,7 @@ def main(argv=None):
         key = classify(f)
         kf = next((k for k in known if k.get('status', 'known') == 'known' and k['key'] == key), None) if key else None
         dk = (key or f['harness'], f['obligation'].split('[')[0])
-        if dk in seen_keys and (kf or len(violations) >= 5): continue
+        if (dk in seen_keys and kf) or len(violations) >= 5 or (dk in seen_keys and len(violations) >= 2): continue
         seen_keys.add(dk)
         path, rc, out = replay_failure(modname, f, pid)
         if rc == 1:
